@@ -240,4 +240,8 @@ class LinearComparer(CorrelatedComparer):
         # Get the best result using max.
         # For a list of pairs, max compares by 1st index and uses 2nd to break ties
         key = lambda result: (result['grade_decimal'], result['msg'])
+        if not results:
+            # No configured mode can be checked (e.g. only proportional/linear credit
+            # is configured and we are comparing with zero)
+            return {'grade_decimal': 0, 'msg': ''}
         return max(results, key=key)
